@@ -102,6 +102,7 @@ type Exec struct {
 	inRes    [][]*types.Var
 	spawns   bool
 	safety   bool
+	rawByCall map[*ast.CallExpr][]Val
 	rawArgs  []Val          // arguments of the call being evaluated, before conversion to the parameter types
 	curRaw   map[string]Val // the same, by contract parameter name
 	aliases  map[types.Object]*lval // map-typed locals bound to a map stored elsewhere (reference semantics)
